@@ -3,6 +3,8 @@
 package pfcpiface
 
 import (
+	"github.com/google/gopacket"
+	"github.com/google/gopacket/layers"
 	"math/rand"
 	"net"
 	"time"
@@ -53,6 +55,7 @@ func vNewEnv(ueIPAlloc bool) *vEnv {
 		InstrumentPFCP: e.m,
 		hbReset:        make(chan struct{}, 100),
 	}
+	vInstallPacketStub()
 	e.pc.setLocalNodeID(e.u.nodeID)
 	e.pc.nodeID.remote = "cp.test"
 	return e
@@ -118,4 +121,70 @@ func H_SMOKE_establish() {
 	vAssert("del-response", r2 != nil && r2.MessageType() == message.MsgTypeSessionDeletionResponse)
 	vAssert("del-seid", r2.SEID() == cp)
 	vAssert("store-empty", len(e.pc.store.GetAllSessions()) == 0)
+}
+
+// vEMLayers records, under the engine, the layers handed to
+// gopacket.SerializeLayers (the byte encoding is gopacket's; it needs package
+// initialisers the engine does not run). The stub leaves a 1-byte packet
+// holding the index of the record, so the harness can find it again.
+type vEMRecord struct {
+	src, dst     [4]byte
+	sport, dport uint16
+	teid         uint32
+	gtpType      uint8
+	proto        uint8
+}
+
+var vEMLayers []vEMRecord
+
+func vInstallPacketStub() {
+	if !vInEngine() {
+		return
+	}
+	vEMLayers = nil
+	vOverride("github.com/google/gopacket.SerializeLayers", func(w gopacket.SerializeBuffer, opts gopacket.SerializeOptions, ls ...gopacket.SerializableLayer) error {
+		var r vEMRecord
+		for _, l := range ls {
+			switch x := l.(type) {
+			case *layers.IPv4:
+				copy(r.src[:], x.SrcIP)
+				copy(r.dst[:], x.DstIP)
+				r.proto = uint8(x.Protocol)
+			case *layers.UDP:
+				r.sport, r.dport = uint16(x.SrcPort), uint16(x.DstPort)
+			case *layers.GTPv1U:
+				r.teid, r.gtpType = x.TEID, x.MessageType
+			}
+		}
+		vEMLayers = append(vEMLayers, r)
+		_ = w.Clear()
+		b, err := w.PrependBytes(1)
+		if err != nil {
+			return err
+		}
+		b[0] = byte(len(vEMLayers) - 1)
+		return nil
+	})
+}
+
+// vEMDecode returns the fields of an end-marker packet: from the recorded
+// layers under the engine, from the real bytes natively.
+func vEMDecode(pkt []byte) vEMRecord {
+	if vInEngine() {
+		return vEMLayers[pkt[0]]
+	}
+	var r vEMRecord
+	// Ethernet (14) + IPv4 (20) + UDP (8) + GTPv1-U (8)
+	if len(pkt) < 50 {
+		return r
+	}
+	pkt = pkt[14:]
+	r.proto = pkt[9]
+	copy(r.src[:], pkt[12:16])
+	copy(r.dst[:], pkt[16:20])
+	r.sport = uint16(pkt[20])<<8 | uint16(pkt[21])
+	r.dport = uint16(pkt[22])<<8 | uint16(pkt[23])
+	r.gtpType = pkt[29]
+	r.teid = uint32(pkt[32])<<24 | uint32(pkt[33])<<16 | uint32(pkt[34])<<8 | uint32(pkt[35])
+	return r
 }
